@@ -1,6 +1,6 @@
 """C17 — configuration of the check (deductive tier under construction)."""
 PROPERTY = "C17"
-LEVEL = "other"
+LEVEL = "exploration"
 CONTRACT_MODULES = ["contracts.specfuns"]
 FUNCTIONS = []
 LEMMAS = []
